@@ -199,7 +199,7 @@ NextSkip == /\ Cardinality(aux.done) < MaxOps
 -----------------------------------------------------------------------------
 (* Mode "typed" (C07): every corpus value in every legal width into every target, whole and truncated *)
 Targets == {"bool", "i8", "u8", "i16", "u16", "i32", "u32", "i64", "u64", "f32", "f64", "str", "vec_i32", "objscope"} \cup (IF Arch = "xml" THEN {} ELSE {"null", "vec_vec_i32"})
-           \cup (IF Arch = "msgpack" THEN {"tp_ns", "vec_u8", "map_i32_str"} ELSE {})
+           \cup (IF Arch = "msgpack" THEN {"tp_ns", "vec_u8", "map_i32_str", "map_tp_i32"} ELSE {})
 
 NumTargets == {"bool", "i8", "u8", "i16", "u16", "i32", "u32", "i64", "u64", "f32", "f64"}
 \* pseudo target "objscope": the value is opened as a nested object (one member requested), then a sibling is requested
@@ -236,7 +236,11 @@ NumCorpus == { IntSmall(n) : n \in (NumBase - NumNeg)..(NumBase + NumPos) }
              \cup (IF Arch = "msgpack" THEN FloatCorpus ELSE IF Arch = "xml" THEN XFloats ELSE JFloats)
 TypedCorpus == (IF Arch = "msgpack" THEN ScalarCorpus ELSE IF Arch = "xml" THEN XScalars \cup {<<"nil">>} ELSE JScalars) \cup { <<"arr", <<U(1), U(200), U(-3)>>>>, <<"arr", <<>>>>, <<"arr", <<U(1), S(<<122>>)>>>>, <<"map", <<<<S(Ka), U(1)>>>>>>,
                      <<"arr", <<<<"arr", <<U(1), U(2)>>>>, <<"nil">>, <<"arr", <<U(3)>>>>>>>> }         \* null in place of a nested array
-               \cup (IF Arch = "msgpack" THEN { <<"map", <<<<U(5), S(<<120>>)>>, <<I40, S(<<121>>)>>, <<U(-6), S(<<122>>)>>>>>> } ELSE {})   \* a key the key type cannot hold
+               \cup (IF Arch = "msgpack" THEN { <<"map", <<<<U(5), S(<<120>>)>>, <<I40, S(<<121>>)>>, <<U(-6), S(<<122>>)>>>>>>,   \* a key the key type cannot hold
+                                                \* time point keys: before the epoch (timestamp 96, an ext 8 header), with nanoseconds (timestamp 64), plain (timestamp 32)
+                                                <<"map", <<<<<<"ts", TRUE, <<0, 0, 0, 0, 0, 0, 0, 2>>, 500000000>>, U(1)>>>>>>,
+                                                <<"map", <<<<<<"ts", FALSE, <<0, 0, 0, 0, 0, 0, 0, 7>>, 1>>, U(2)>>>>>>,
+                                                <<"map", <<<<<<"ts", FALSE, <<0, 0, 0, 0, 0, 0, 0, 9>>, 0>>, U(3)>>>>>> } ELSE {})
 
 InitTyped == /\ \E v \in (IF Mode = "numeric" THEN NumCorpus ELSE TypedCorpus),
                    T \in (IF TypedTargets # {} THEN TypedTargets ELSE IF Mode = "numeric" THEN NumTargets ELSE Targets) : \E r \in (IF Mode = "numeric" /\ NumLeafOnly THEN { [k |-> "leaf", t |-> T] } ELSE TypedRoots(T)) : ("at" \in DOMAIN r => v[1] \notin {"arr", "map", "nil"}) /\ doc = Wrap(v, r) /\ root = r
